@@ -29,7 +29,7 @@ PRODS = {
 RICH = [
     'map(Xss, {count(#, {# > A})})', 'map(Xss, {len(#)})', 'filter(Xss, {any(#, {Pf(#)})})', 'any(Xss, {none(#, {# == A})})', 'map(Xss, {map(#, {# + A})})',
     'count(Xss, {one(#, {Pf(#)})})', 'map(Xss, {filter(#, {# > A})})', 'map(Xss, {#[0]})', 'all(Xss, {len(#) > 0 and #[0] > A})', 'map(Xss, {all(#, {Qf(#, A)})})',
-    'map(Ss, {S matches #})', 'filter(Ss, {# matches "^a"})', 'count(Ss, {S contains #})', 'map(Ss, {# + S})', 'S in Ss', 'any(Ss, {# == S})', 'map(Ss, {T matches #})', 'Ss[A]', 'len(Ss)',
+    'S matches "S"', 'T == "^a" or S matches "^a"', 'S matches "^a" and T == "^a"', 'map(Ss, {S matches #})', 'filter(Ss, {# matches "^a"})', 'count(Ss, {S contains #})', 'map(Ss, {# + S})', 'S in Ss', 'any(Ss, {# == S})', 'map(Ss, {T matches #})', 'Ss[A]', 'len(Ss)',
     'F in Xs', 'F in 1..3', 'F in [1, 2]', '1.5 in Xs', 'F not in Ys', 'count(Xs, {F in Ys})', 'filter(Xs, {# in [F, 1.5]})', 'F in A..B',
     'Any in [1, 2, 3]', 'Any == 1', 'Any in Xs', 'Any in 1..3', 'Any == nil', 'Any in ["a", "b"]', 'Any != A',
 ]
@@ -265,7 +265,7 @@ C03_CONTEXTS = ['{X}', '[{X}]', 'P ? {X} : 0', 'P ? 0 : {X}', 'map(Xs, {{{X}}})'
 C03_WELL = ['A + B', 'S + T', 'P and Q', 'not P', '-A', 'A < B', 'S contains T', 'S matches T', 'A..B', 'A % B', 'Ptr.V', 'Fn(A)', 'Gn(A, B)', 'Twice(A)', 'FnF(F)', 'P ? 1 : 2', 'filter(Xs, {# > 1})',
             'all(Xs, {# > 1})', 'len(Xs)', 'len(S)', 'len(M)', 'Xs[0]', 'S[1:2]', 'Xs[A:]', 'A in Xs', 'S in M', 'M[S]', 'A == F', 'Ptr == nil', 'S == T', 'FnU8(1)', 'FnF(1)', 'FnF(1 + 2)', 'FnI64(2 * 3)']
 # accepted by the rules but with statically typed operands that cannot work at run time (soundness probes)
-C03_SOUND_EXTRA = ['A in M', 'M[A]', 'Xs[S]', 'Fn(A + 1.5)', 'Fn(-F)', 'Fn(1 + 1.5)', 'Fn(2 / 1)', 'FnU8(A + 1)', 'FnF(A + 1)', 'FnF(1 + A)', 'FnI64(A * 2)', 'Fn(1.5 + 2)', 'Fn(I64 + 1)', 'S in Xs', 'P in Xs', 'A in Ss', 'S[S]', 'Ptr["V"]', 'Ptr[S]', 'M.a + S',
+C03_SOUND_EXTRA = ['FnF(7 % 2)', 'FnU8(9 % 5)', 'FnF(-(7 % 4))', 'FnI64(9 % 5 * 2)', 'Fn(7 % 2)', 'P ? I64 : nil', 'P ? nil : I64', 'P ? F : nil', 'P ? nil : F', 'Vf(S, A, B)', 'Vf(S)', 'Vv(A, S)', 'Vv()', 'Vf(S, A) == 1', 'A in M', 'M[A]', 'Xs[S]', 'Fn(A + 1.5)', 'Fn(-F)', 'Fn(1 + 1.5)', 'Fn(2 / 1)', 'FnU8(A + 1)', 'FnF(A + 1)', 'FnF(1 + A)', 'FnI64(A * 2)', 'Fn(1.5 + 2)', 'Fn(I64 + 1)', 'S in Xs', 'P in Xs', 'A in Ss', 'S[S]', 'Ptr["V"]', 'Ptr[S]', 'M.a + S',
                    'U8 in Xs', 'F in Xs', 'I64 == A', 'Xs[U8]', 'Xs[I64]', 'Xs[F]', 'M[S] + A', 'Xss[0][A]', 'Ss[A] + S', 'filter(Xs, {# > A})', 'map(Xs, {# * 2})', 'map(Xs, {# > A})', 'filter(Ss, {# == S})', 'map(Ss, {len(#)})',
                    'count(Xs, {# > A}) + 1', 'A..B', '1..3', '[A, B]', '{a: A}', 'P ? A : F', 'P ? A : nil', 'P ? nil : A', 'Ptr?.V', 'Ptr?.Next', 'A ** B', 'A / B', 'U8 + A', 'U8 * U8', 'F + A', 'I64 % A', '-U8', 'len(S) + A']
 
@@ -276,6 +276,8 @@ C13_TEMPLATES = [
     ('Fn(~@[S]@~)', 0), ('all(Xs,~@[{]@# + 1})', 0), ('@[len]@(~A~)', 0), ('Xs[~A~:~@[S]@~]', 0), ('"é" + S +~@[Foo]@', 0), ('{a: 1,~b: @[Foo]@}', 0),
     ('P ?~A :~@[-]@S', 0), ('A~@[not in]@~B', 0), ('1 +~2~@[3]@', 0), ('Ptr.V.@[W]@', 0), ('"éé"~+ "é" ==~@[Foo]@', 0), ('A~*~(B~@[-]@~S)', 0),
     ('map(Xs,~{#~@[+]@~S})', 0), ('Gn(A,~@[S]@)', 0), ('not~(P~@[and]@~A)', 0), ('A > 1 ? "é" :~@[Bar]@', 0), ('@[Twice]@()', 0), ('S~@[matches]@~A', 0),
+    ('not~@[inX]@', 0), ('P and not~@[index]@', 0), ('not inX or~@[Foo]@ > 1', 3), ('inX and not~inX or~@[Zip]@(1)', 3),
+    ('V~@[+]@~W', 2), ('A < 0 ? V :~V~@[+]@~W', 2), ('(V + W).X +~(V~@[+]@~W).X', 4), ('Xs[0]~@[+]@~V', 2),
     ('A~@[/]@~B', 1), ('A + (A~@[%]@~B)', 1), ('Xs@[[]@~A]', 1), ('Ptr.@[V]@', 1), ("'é' + S == T or~@[Fn]@(B) > 0", 1), ('[1, 2, 3]~@[[]@~A~]', 1),
     ('map(Xs,~{#~@[/]@~B})', 1), ('P ? 1 : A~@[/]@~B', 1), ('S~@[matches]@~T', 1), ('"éé" == S or~A~@[/]@~B > 1', 1), ('Q and~Xs[0] >~Ys@[[]@A]', 1), ('[A, A~@[%]@~B,~1][0]', 1),
 ]
